@@ -138,8 +138,21 @@ func (f *Fixture) Stop() error {
 	}
 	e := f.E
 	f.E = nil
+	// Quiesce first.  Closing a NodeHost while one of its raft events is still being dispatched can deadlock regatta's shutdown:
+	// NodeHost.Close holds the NodeHost lock while it publishes NodeUnloaded events synchronously, regatta's dispatcher handles every
+	// event by re-reading the NodeHost info (which needs that lock) and its one-slot event channel is already taken by the
+	// shutting-down event.  (Observed as a hang of Engine.Close in a table-set history that restarted the follower right after
+	// tables had been started.)  Not one of the listed properties; the harness just keeps out of that window.
+	time.Sleep(150 * time.Millisecond)
 	_ = e.Cluster.Close()
-	return e.Close()
+	done := make(chan error, 1)
+	go func() { done <- e.Close() }()
+	select {
+	case err := <-done:
+		return err
+	case <-time.After(90 * time.Second):
+		return fmt.Errorf("engine shutdown hung (regatta event dispatcher vs NodeHost.Close)")
+	}
 }
 
 // WaitTable waits until the named table answers a linearizable read.
